@@ -50,6 +50,7 @@ Local Notation C := (f0_C fb).
 Local Notation lo := (f0_leftover fb).
 Local Notation prod := (f0_cprod fb).
 Local Notation ubi := (f0_ubi fb).
+Local Notation K := (the_crossing fb ++ f0_ubs fb ++ f0_ubi fb).
 
 Lemma srcs_nodup : NoDup (f0_srcs fb).
 Proof.
@@ -65,7 +66,7 @@ Proof. unfold f0_valid. apply NoDup_filter. apply seq_NoDup. Qed.
 
 (** one round: equal rows for every factor force equal components *)
 Lemma round_inj tc cp1 cp2 : tc <= C -> comp_ok fb tc cp1 -> comp_ok fb tc cp2 ->
-  (forall g, In g (fl_act fb) -> round_row fb tc cp1 g = round_row fb tc cp2 g) -> cp1 = cp2.
+  (forall g, In g K -> round_row fb tc cp1 g = round_row fb tc cp2 g) -> cp1 = cp2.
 Proof.
   intros Hle Hok1 Hok2 Hrows.
   destruct cp1 as [[a0 a1] a2]. destruct cp2 as [[b0 b1] b2].
@@ -83,7 +84,7 @@ Proof.
       - rewrite !(prod_elem_length fb HF Hq) by lia. reflexivity.
       - intros i Hi. rewrite (prod_elem_length fb HF Hq) in Hi by lia.
         assert (Hg : nth_error c i = Some (nth i c 0)) by (apply nth_error_nth_ok; exact Hi).
-        assert (Hgn : In (nth i c 0) (fl_act fb)) by (apply (f0_cact_main fb HF), nth_In; exact Hi).
+        assert (Hgn : In (nth i c 0) K) by (apply in_app_iff; left; apply nth_In; exact Hi).
         pose proof (Hrows _ Hgn) as Hrow.
         rewrite (round_row_crossed fb HF Hq tc (a0, a1, a2) i _ Hle Hok1 Hg) in Hrow.
         rewrite (round_row_crossed fb HF Hq tc (b0, b1, b2) i _ Hle Hok2 Hg) in Hrow. cbn [fst] in Hrow.
@@ -117,7 +118,7 @@ Proof.
       destruct (src_at_keys fb HF Hq tc (a0, b1, b2) t Hle Hok2 Ht) as (lb & Eb & Hlb). fold perm in Ea, Eb.
       rewrite Ea, Eb. f_equal. apply (nth_ext_len _ _ 0); [lia|]. intros j Hj. rewrite Hla in Hj.
       assert (Hg : nth_error (f0_ubs fb) j = Some (nth j (f0_ubs fb) 0)) by (apply nth_error_nth_ok; exact Hj).
-      assert (Hgn : In (nth j (f0_ubs fb) 0) (fl_act fb)) by (apply (f0_ubs_act fb HF), nth_In; exact Hj).
+      assert (Hgn : In (nth j (f0_ubs fb) 0) K) by (apply in_app_iff; right; apply in_app_iff; left; apply nth_In; exact Hj).
       pose proof (Hrows _ Hgn) as Hrow.
       rewrite (round_row_src fb HF Hq tc (a0, a1, a2) j _ Hle Hok1 Hg) in Hrow.
       rewrite (round_row_src fb HF Hq tc (a0, b1, b2) j _ Hle Hok2 Hg) in Hrow. cbn [fst snd] in Hrow.
@@ -138,7 +139,7 @@ Proof.
   { pose proof (Forall2_length' _ _ _ Ha2) as Hl1. pose proof (Forall2_length' _ _ _ Hb2) as Hl2.
     apply (nth_ext_len _ _ 0%Z); [lia|]. intros j Hj. rewrite <- Hl1 in Hj.
     assert (Hg : nth_error ubi j = Some (nth j ubi 0)) by (apply nth_error_nth_ok; exact Hj).
-    assert (Hgn : In (nth j ubi 0) (fl_act fb)) by (apply (f0_ubi_act fb HF), nth_In; exact Hj).
+    assert (Hgn : In (nth j ubi 0) K) by (apply in_app_iff; right; apply in_app_iff; right; apply nth_In; exact Hj).
     pose proof (Hrows _ Hgn) as Hrow.
     rewrite (round_row_ind fb HF Hq tc (a0, a1, a2) j _ Hle Hok1 Hg) in Hrow.
     rewrite (round_row_ind fb HF Hq tc (b0, b1, b2) j _ Hle Hok2 Hg) in Hrow. cbn [snd] in Hrow.
@@ -164,16 +165,16 @@ Lemma rounds_inj (rcs1 rcs2 : list (nat * comp)) :
   map fst rcs1 = map fst rcs2 ->
   (forall rc, In rc rcs1 -> fst rc <= C /\ comp_ok fb (fst rc) (snd rc)) ->
   (forall rc, In rc rcs2 -> fst rc <= C /\ comp_ok fb (fst rc) (snd rc)) ->
-  (forall g, In g (fl_act fb) -> rounds_row rcs1 g = rounds_row rcs2 g) -> rcs1 = rcs2.
+  (forall g, In g K -> rounds_row rcs1 g = rounds_row rcs2 g) -> rcs1 = rcs2.
 Proof.
   revert rcs2. induction rcs1 as [|[tc cp1] t1 IH]; intros [|[tc2 cp2] t2] Hfst H1 H2 Hrows; try discriminate; [reflexivity|].
   cbn [map fst] in Hfst. inversion Hfst as [[Htc Hrest]]. subst tc2.
   destruct (H1 (tc, cp1) (or_introl eq_refl)) as [Hle Hok1]. destruct (H2 (tc, cp2) (or_introl eq_refl)) as [_ Hok2].
   cbn [fst snd] in *.
-  assert (Hsplit : forall g, In g (fl_act fb) -> round_row fb tc cp1 g = round_row fb tc cp2 g /\ rounds_row t1 g = rounds_row t2 g).
+  assert (Hsplit : forall g, In g K -> round_row fb tc cp1 g = round_row fb tc cp2 g /\ rounds_row t1 g = rounds_row t2 g).
   { intros g Hg. specialize (Hrows g Hg). unfold rounds_row in Hrows. cbn [flat_map fst snd] in Hrows.
     apply app_inj_length; [exact Hrows|].
-    rewrite !(round_row_length fb HF Hq) by (try assumption; apply (K_In fb HF Hq); exact Hg). reflexivity. }
+    rewrite !(round_row_length fb HF Hq) by assumption. reflexivity. }
   assert (cp1 = cp2) by (apply (round_inj tc); [exact Hle | exact Hok1 | exact Hok2 | intros g Hg; apply Hsplit; exact Hg]).
   subst cp2. f_equal. apply IH; [exact Hrest | | |].
   - intros rc Hrc. apply H1. right. exact Hrc.
@@ -206,7 +207,7 @@ Qed.
 
 (** distinct keys give distinct sequences *)
 Theorem f0_decode_inj k1 k2 : key_ok fb k1 -> key_ok fb k2 ->
-  (forall g, In g (fl_act fb) -> decoded_row fb k1 g = decoded_row fb k2 g) -> k1 = k2.
+  (forall g, In g K -> decoded_row fb k1 g = decoded_row fb k2 g) -> k1 = k2.
 Proof.
   intros Hk1 Hk2 Hrows. apply all_rounds_inj; [exact Hk1 | exact Hk2|].
   apply rounds_inj.
